@@ -11,7 +11,7 @@ import (
 
 func init() {
 	register("C15", runC15, propMeta{
-		Explanation: "Ownership / escape argument for the local-variable store (a map[string]reflect.Value), sound modulo reflect and unsafe: (V1) the only such map that is not the injected table is allocated by a make in RuleEntity.Execute, once per call, and handed straight to RuleContent.Execute; it starts empty; (V2) in every function of the interpreter that has a parameter of that type, every argument of that type it passes on is that very parameter (so one rule execution threads one map and no other); (V3) a value of that type is never stored into a struct field (other than DataContext.base at construction), a package variable, a map, a slice or a channel, and no function returns one, so it cannot outlive or leave the rule execution; goroutines that capture it (conc) are joined before Evaluate returns (C18); (V4) locals are looked up and written only on the miss edge of a lookup of the same key in the injected table, and the injected table is written only by Add / PluginLoader / Del; (V5) injected names are shared by all rules of a call: every rule execution receives the data context of the call's own rule builder. (V7) package context writes through a reflect value only in SetMapVarValue: a local is assigned by replacing its table entry, never set in place. Consequence: two rule executions never hold the same map, so a local cannot leak between rules, calls, goroutines or pool requests, and starts undefined. Inside the interpreter (packages context and internal/...) only the construction of a data context calls Add; nobody calls Del or PluginLoader: an assignment never creates an injected name. (V9) the compound operators compute from the current value of the target as the data context gave it and fail when that read failed. (V10) outside package context nothing reads or writes a map[string]reflect.Value: the locals table is touched by the data context only.",
+		Explanation: "Ownership / escape argument for the local-variable store (a map[string]reflect.Value), sound modulo reflect and unsafe: (V1) the only such map that is not the injected table is allocated by a make in RuleEntity.Execute, once per call, and handed straight to RuleContent.Execute; it starts empty; (V2) in every function of the interpreter that has a parameter of that type, every argument of that type it passes on is that very parameter (so one rule execution threads one map and no other); (V3) a value of that type is never stored into a struct field (other than DataContext.base at construction), a package variable, a map, a slice or a channel, and no function returns one, so it cannot outlive or leave the rule execution; goroutines that capture it (conc) are joined before Evaluate returns (C18); (V4) locals are looked up and written only on the miss edge of a lookup of the same key in the injected table, and the injected table is written only by Add / PluginLoader / Del; (V5) injected names are shared by all rules of a call: every rule execution receives the data context of the call's own rule builder. (V7) package context writes through a reflect value only in SetMapVarValue: a local is assigned by replacing its table entry, never set in place. Consequence: two rule executions never hold the same map, so a local cannot leak between rules, calls, goroutines or pool requests, and starts undefined. Inside the interpreter (packages context and internal/...) only the construction of a data context calls Add; nobody calls Del or PluginLoader: an assignment never creates an injected name. (V9) the compound operators compute from the current value of the target as the data context gave it and fail when that read failed. (V10) outside package context nothing reads or writes a map[string]reflect.Value: the locals table is touched by the data context only. V6 also covers a value read from the locals table that is handed to a method of a field of the DataContext (a sync.Map, a cache) or stored into any map held in one of its fields.",
 		Assumptions: []string{"no reflect/unsafe access to the map from injected host functions"},
 		Trusted:     commonTrusted,
 	})
@@ -357,6 +357,27 @@ func runC15(c *Ctx) {
 			case *ssa.MapUpdate:
 				if _, is := x.isFieldLoad(t.Map, "DataContext", "base"); is && fromVars(t.Value) {
 					bad, badPos = "the injected table", in.Pos()
+				} else if ld, isLd := x.Origin(t.Map).(*ssa.UnOp); isLd && ld.Op == token.MUL {
+					if fa, isFA := ld.X.(*ssa.FieldAddr); isFA && structName(fa.X.Type()) == "DataContext" && fromVars(t.Value) {
+						bad, badPos = "the map in field "+fieldOf(fa).Name(), in.Pos()
+					}
+				}
+			case *ssa.Call:
+				// a method of a field of the context (a sync.Map, a cache type) handed such a value
+				if t.Call.IsInvoke() || len(t.Call.Args) < 2 {
+					break
+				}
+				fa, isFA := x.Origin(t.Call.Args[0]).(*ssa.FieldAddr)
+				if !isFA || structName(fa.X.Type()) != "DataContext" {
+					break
+				}
+				for _, a := range t.Call.Args[1:] {
+					if mi, isMI := x.Origin(a).(*ssa.MakeInterface); isMI {
+						a = mi.X
+					}
+					if fromVars(a) {
+						bad, badPos = "field "+fieldOf(fa).Name()+" (through "+x.Describe(t.Call.Value)+")", in.Pos()
+					}
 				}
 			}
 		})
